@@ -155,4 +155,199 @@ theorem init_get (ids : List Str) (id : Str) : (Status.init ids).get id = none :
       · exact h e' h'
       · subst h'; rfl
 
+/-! ### the accounting request (`sacct --jobs=`) -/
+
+theorem lastUpd_none (id : Str) : ∀ (acts : List RowAct),
+    (∀ a ∈ acts, ∀ v, a ≠ .upd id (.ok v)) → lastUpd id acts = none := by
+  intro acts
+  induction acts with
+  | nil => intro _; rfl
+  | cons a as ih =>
+    intro h
+    simp only [lastUpd]
+    rw [ih (fun a' ha' => h a' (List.mem_cons_of_mem _ ha'))]
+    cases a with
+    | skip => rfl
+    | fail => rfl
+    | upd id' v =>
+      cases v with
+      | error e => rfl
+      | ok s =>
+        simp only
+        split
+        · rename_i heq; subst heq
+          exact absurd rfl (h _ (List.mem_cons_self ..) s)
+        · rfl
+
+theorem splitOnChar_ne_nil (c : Char) : ∀ s : Str, splitOnChar c s ≠ [] := by
+  intro s
+  induction s with
+  | nil => simp [splitOnChar]
+  | cons x xs ih =>
+    simp only [splitOnChar]
+    split
+    · simp
+    · split <;> simp
+
+theorem splitOnChar_no_sep (c : Char) : ∀ (s : Str) (r : Str), r ∈ splitOnChar c s → c ∉ r := by
+  intro s
+  induction s with
+  | nil => intro r hr; simp [splitOnChar] at hr; subst hr; simp
+  | cons x xs ih =>
+    intro r hr
+    simp only [splitOnChar] at hr
+    split at hr
+    · simp at hr; subst hr; simp
+    · rename_i t ts heq
+      have iht : ∀ r, r ∈ t :: ts → c ∉ r := fun r h => ih r (heq ▸ h)
+      split at hr
+      · simp only [List.mem_cons] at hr
+        rcases hr with h | h | h
+        · subst h; simp
+        · subst h; exact iht _ (List.mem_cons_self ..)
+        · exact iht _ (List.mem_cons_of_mem _ h)
+      · rename_i hx
+        simp only [List.mem_cons] at hr
+        rcases hr with h | h
+        · subst h
+          intro hm
+          simp only [List.mem_cons] at hm
+          rcases hm with h' | h'
+          · subst h'; simp at hx
+          · exact iht _ (List.mem_cons_self ..) h'
+        · exact iht _ (List.mem_cons_of_mem _ h)
+
+theorem splitOnChar_no_sep_self (c : Char) : ∀ (r : Str), c ∉ r → splitOnChar c r = [r] := by
+  intro r
+  induction r with
+  | nil => intro _; rfl
+  | cons x xs ih =>
+    intro h
+    simp only [List.mem_cons, not_or] at h
+    simp only [splitOnChar, ih h.2]
+    have : (x == c) = false := by simpa using fun e => h.1 e.symm
+    simp [this]
+
+theorem splitOnChar_append_sep (c : Char) : ∀ (r rest : Str), c ∉ r →
+    splitOnChar c (r ++ c :: rest) = r :: splitOnChar c rest := by
+  intro r
+  induction r with
+  | nil =>
+    intro rest _
+    simp only [List.nil_append, splitOnChar]
+    split
+    · rename_i h; exact absurd h (splitOnChar_ne_nil c rest)
+    · rename_i t ts h; simp [h]
+  | cons x xs ih =>
+    intro rest h
+    simp only [List.mem_cons, not_or] at h
+    simp only [List.cons_append, splitOnChar, ih rest h.2]
+    have : (x == c) = false := by simpa using fun e => h.1 e.symm
+    simp [this]
+
+theorem splitOnChar_joinLines (c : Char) (hc : c = '\n') : ∀ (rows : List Str), rows ≠ [] →
+    (∀ r ∈ rows, c ∉ r) → splitOnChar c (joinLines rows) = rows := by
+  intro rows
+  induction rows with
+  | nil => intro h; exact absurd rfl h
+  | cons r rs ih =>
+    intro _ h
+    cases rs with
+    | nil => simp only [joinLines]; exact splitOnChar_no_sep_self c r (h r (List.mem_cons_self ..))
+    | cons r2 rs2 =>
+      simp only [joinLines]
+      rw [← hc, splitOnChar_append_sep c r _ (h r (List.mem_cons_self ..))]
+      rw [hc] at ih ⊢
+      rw [ih (by simp) (fun x hx => hc ▸ h x (List.mem_cons_of_mem _ hx))]
+
+/-- the accounting answers concern, among Maestro's own job ids, only the ones asked about -/
+def Honest (ids : List Str) (acct : List Str → Proc) : Prop :=
+  ∀ req row, row ∈ (splitOnChar '\n' (acct req).out).drop 2 → rowId row ∈ ids → rowId row ∈ req
+
+theorem sacctAct_id (row : Str) (id : Str) (v : Except Unit State) (h : sacctAct row = .upd id v) :
+    rowId row = id := by
+  unfold sacctAct at h
+  unfold rowId
+  split at h
+  · cases h
+  · rename_i i rest heq
+    simp only [RowAct.upd.injEq] at h
+    simp [heq, h.1]
+
+/-- the scripted accounting command of the correspondence keeps the contract -/
+theorem acctReply_honest (ids : List Str) (full : Proc) : Honest ids (acctReply ids full) := by
+  intro req row hrow hin
+  simp only [acctReply] at hrow
+  have hne : splitOnChar '\n' full.out ≠ [] := splitOnChar_ne_nil _ _
+  have hns : ∀ r ∈ splitOnChar '\n' full.out, '\n' ∉ r := splitOnChar_no_sep _ _
+  generalize splitOnChar '\n' full.out = rows at hrow hne hns
+  rw [splitOnChar_joinLines '\n' rfl] at hrow
+  · -- the row is a header row that slipped through only if fewer than two rows exist
+    have : row ∈ (rows.drop 2).filter
+        (fun r => !(ids.contains (rowId r) && !req.contains (rowId r))) := by
+      rcases Nat.lt_or_ge rows.length 2 with hl | hl
+      · have h2 : rows.drop 2 = [] := List.drop_eq_nil_of_le (by omega)
+        rw [h2] at hrow
+        simp only [List.filter_nil, List.append_nil] at hrow
+        have : (rows.take 2).drop 2 = [] := List.drop_eq_nil_of_le (by simp; omega)
+        rw [this] at hrow; cases hrow
+      · have hlen : (rows.take 2).length = 2 := by simp; omega
+        rw [List.drop_append_of_le_length (by omega)] at hrow
+        rw [List.drop_eq_nil_of_le (by omega)] at hrow
+        simpa using hrow
+    simp only [List.mem_filter, Bool.not_eq_eq_eq_not, Bool.not_true, Bool.and_eq_false_imp,
+      List.contains_eq_mem, decide_eq_true_eq] at this
+    have := this.2 hin
+    simpa using this
+  · cases rows with
+    | nil => exact absurd rfl hne
+    | cons r rs => simp
+  · intro r hr
+    simp only [List.mem_append, List.mem_filter] at hr
+    rcases hr with h | h
+    · exact hns r (List.mem_of_mem_take h)
+    · exact hns r (List.mem_of_mem_drop h.1)
+
+theorem missing_get (st : Status) (id : Str) (h : id ∈ st.missing) : st.get id = none := by
+  unfold Status.missing at h
+  simp only [List.mem_filter] at h
+  cases hg : st.get id with
+  | none => rfl
+  | some v => simp [hg] at h
+
+theorem get_of_not_has (st : Status) (id : Str) (h : ¬ st.has id = true) : st.get id = none := by
+  unfold Status.get
+  unfold Status.has at h
+  cases hf : st.find? (·.1 == id) with
+  | none => rfl
+  | some e =>
+    exfalso; apply h
+    have h1 := List.mem_of_find?_eq_some hf
+    have h2 := List.find?_some hf
+    exact List.any_eq_true.mpr ⟨e, h1, h2⟩
+
+theorem init_has (ids : List Str) (id : Str) (h : (Status.init ids).has id = true) : id ∈ ids := by
+  unfold Status.init Status.has at h
+  suffices hs : ∀ (st : Status),
+      (ids.foldl (fun st id => if st.any (·.1 == id) then st else st ++ [(id, none)]) st).any (·.1 == id) = true →
+      st.any (·.1 == id) = true ∨ id ∈ ids by
+    rcases hs [] h with h' | h'
+    · simp at h'
+    · exact h'
+  clear h
+  induction ids with
+  | nil => intro st h; exact Or.inl h
+  | cons i is ih =>
+    intro st h
+    simp only [List.foldl_cons] at h
+    rcases ih _ h with h' | h'
+    · split at h'
+      · exact Or.inl h'
+      · simp only [List.any_append, List.any_cons, List.any_nil, Bool.or_false, Bool.or_eq_true,
+          beq_iff_eq] at h'
+        rcases h' with h'' | h''
+        · exact Or.inl h''
+        · exact Or.inr (h'' ▸ List.mem_cons_self ..)
+    · exact Or.inr (List.mem_cons_of_mem _ h')
+
 end MaestroVerif.Sched
